@@ -232,7 +232,17 @@ fn run_one(b: &Value) -> (Option<Value>, Vec<Value>) {
             der.extend(keys[0].0.to_bytes());
             CString::new(pem_of("PRIVATE KEY", &der)).unwrap()
         };
-        if !status_ok(&mla_reader_config_new(&mut rcfg)) || !status_ok(&mla_reader_config_add_private_key(rcfg, priv_pem.as_ptr())) {
+        if !status_ok(&mla_reader_config_new(&mut rcfg)) {
+            return (Some(json!({"kind": "reader-config-failed"})), trace);
+        }
+        // a NULL configuration handle (with a valid key), and a NULL key, are refused - not dereferenced
+        if status_ok(&mla_reader_config_add_private_key(null_mut(), priv_pem.as_ptr())) {
+            return (Some(json!({"kind": "bad-handle-accepted", "call": ["reader_add_private_key_null_config"]})), trace);
+        }
+        if status_ok(&mla_reader_config_add_private_key(rcfg, std::ptr::null())) {
+            return (Some(json!({"kind": "bad-handle-accepted", "call": ["reader_add_private_key_null_key"]})), trace);
+        }
+        if !status_ok(&mla_reader_config_add_private_key(rcfg, priv_pem.as_ptr())) {
             return (Some(json!({"kind": "reader-config-failed"})), trace);
         }
         let st = mla_roarchive_extract(&mut rcfg, Some(read_cb), Some(seek_cb), Some(file_cb), sctx);
